@@ -855,21 +855,24 @@ def insCtx (glyphs : Nat → Option Nat) : Ctx where
 
 /-! ### non-contextual (type 4) -/
 
-/-- src: apply_subtable, arm `NonContextual`: `for info in 0..ac.buffer.len { … }`.
+/-- the body of `for info in 0..ac.buffer.len { … }` of the non-contextual subtable.
     D17: the range block looks at `buffer.cur(0)` — `idx` is never advanced by this loop. -/
-def nonContextual (lk : Lookup) (rf : Array Range) (subFlags : Nat) (b : Buf) : M Buf := do
-  let lastRange : Option Nat := if rf.size > 1 then some 0 else none
-  let (b, _) ← forUp b.len (fun i (st : Buf × Option Nat) => do
-    let (b, lastRange) := st
-    let (skip, lastRange) ← rangeBlock rf subFlags b lastRange
-    if skip then return (b, lastRange)
-    let g ← rd b.info i
+def ncStep (lk : Lookup) (rf : Array Range) (subFlags : Nat) (i : Nat) (st : Buf × Option Nat) :
+    M (Buf × Option Nat) := do
+  let r ← rangeBlock rf subFlags st.1 st.2
+  if r.1 then pure (st.1, r.2)
+  else do
+    let g ← rd st.1.info i
     match lk (glyph16 g.gid) with
-    | some r => do
-      let info ← wr b.info i { g with gid := r }
-      return ({ b with info := info }, lastRange)
-    | none => return (b, lastRange)) (b, lastRange)
-  return b
+    | some v => do
+      let info ← wr st.1.info i { g with gid := v }
+      pure ({ st.1 with info := info }, r.2)
+    | none => pure (st.1, r.2)
+
+/-- src: apply_subtable, arm `NonContextual` -/
+def nonContextual (lk : Lookup) (rf : Array Range) (subFlags : Nat) (b : Buf) : M Buf := do
+  let r ← forUp b.len (ncStep lk rf subFlags) (b, if rf.size > 1 then some 0 else none)
+  pure r.1
 
 /-! ### the chain loop -/
 
@@ -1005,15 +1008,18 @@ def chainFlags (cur : List FeatInfo) (defaultFlags : Nat) (features : List (Nat 
       else flags
     else flags) defaultFlags
 
+/-- `for (chain, chain_flags) in chains.zip(map.chain_flags.iter_mut()) { …; chain_flags.push(range) }`
+    after `map.chain_flags.resize(chain_len, vec![])` -/
+def compileFlagsGo (cur : List FeatInfo) (first last : Nat) : List Chain → List (List Range) → List (List Range)
+  | [], _ => []
+  | ch :: chs, m =>
+    (m.headD [] ++ [⟨chainFlags cur ch.defaultFlags ch.features, first % 2 ^ 32, last % 2 ^ 32⟩]) ::
+      compileFlagsGo cur first last chs m.tail
+
 /-- src: compile_flags — pushes one range per chain. -/
 def compileFlags (chains : List Chain) (cur : List FeatInfo) (first last : Nat)
     (map : List (List Range)) : List (List Range) :=
-  let rec go : List Chain → List (List Range) → List (List Range)
-    | [], _ => []
-    | ch :: chs, m =>
-      let old := m.headD []
-      (old ++ [⟨chainFlags cur ch.defaultFlags ch.features, first % 2 ^ 32, last % 2 ^ 32⟩]) :: go chs m.tail
-  go chains map
+  compileFlagsGo cur first last chains map
 
 /-- src: aat_map.rs::feature_event_t -/
 structure Event where
@@ -1038,6 +1044,9 @@ def removeFirst (f : FeatInfo) : List FeatInfo → List FeatInfo
   | [] => []
   | x :: xs => if x == f then xs else x :: removeFirst f xs
 
+/-- `usize::wrapping_sub(1)` -/
+def wrappingPred (n : Nat) : Nat := if n == 0 then 2 ^ 64 - 1 else n - 1
+
 /-- src: hb_aat_map_builder_t::compile — the event scan. -/
 def compileScan (chains : List Chain) : List Event → (active : List FeatInfo) → (lastIndex : Nat) →
     List (List Range) → List (List Range)
@@ -1045,7 +1054,7 @@ def compileScan (chains : List Chain) : List Event → (active : List FeatInfo) 
   | ev :: evs, active, lastIndex, map =>
     let (map, lastIndex) :=
       if ev.index != lastIndex then
-        (compileFlags chains (sortDedup active) lastIndex ((ev.index + 2 ^ 64 - 1) % 2 ^ 64) map, ev.index)
+        (compileFlags chains (sortDedup active) lastIndex (wrappingPred ev.index) map, ev.index)
       else (map, lastIndex)
     let active := if ev.start then active ++ [ev.feature] else removeFirst ev.feature active
     compileScan chains evs active lastIndex map
